@@ -227,6 +227,8 @@ type Connection struct {
 	healthCheckCtx     context.Context
 	healthCheckQuit    context.CancelFunc
 	healthCheckDone    chan struct{}
+	// healthCheckPinging is set while the health checker is inside its own ping.
+	healthCheckPinging atomic.Bool
 	healthCheckHistory *healthHistory
 
 	// lastActivity{Read,Write} is used to track how long the connection has been
